@@ -94,18 +94,46 @@ def r1_errors_carry_location(ctx: Ctx) -> None:
     txt = unparse(ne.node)
     ctx.check("position.file.filename" in txt and "position.line" in txt and "position.get_line()" in txt, "NodeError.__str__", "prints file name, line number and the line's text")
     pa = repo.func("a816.parse.mzparser", "MZParser.parse_as_ast")
+    from ..match import canon as _canon17
+
+    def expand(mi, fnode: ast.FunctionDef, expr: ast.AST, depth: int = 0) -> str:
+        """the message expression with locals inlined and calls of repository functions on the exception replaced by what they return"""
+        txt = _canon17(fnode, expr)
+        if depth >= 3:
+            return txt
+        if txt.isidentifier():
+            vals = [a.value for a in walk_no_nested(fnode) if isinstance(a, ast.Assign) and len(a.targets) == 1 and unparse(a.targets[0]) == txt]
+            if len(vals) > 1:
+                return "(" + " | ".join(expand(mi, fnode, v, depth + 1) for v in vals) + ")"
+        tree = ast.parse(txt, mode="eval").body
+        for c in [x for x in ast.walk(tree) if isinstance(x, ast.Call) and isinstance(x.func, (ast.Name, ast.Attribute)) and len(x.args) == 1 and not x.keywords]:
+            nm = (call_name(c) or "").split(".")[-1]
+            r = repo.resolve_name(mi, nm) if "." not in (call_name(c) or "") or (call_name(c) or "").startswith(("errors.", "self.")) else None
+            target = r[1] if r and r[0] == "func" else None
+            if target is None and (call_name(c) or "").startswith("errors."):
+                target = repo.try_func("a816.parse.errors", nm)
+            if target is None or not target.params():
+                continue
+            param = target.params()[0]
+            parts = []
+            for rr in [x for x in walk_no_nested(target.node) if isinstance(x, ast.Return) and x.value is not None]:
+                sub = expand(target.module, target.node, rr.value, depth + 1)
+                parts.append(re.sub(rf"\b{re.escape(param)}\b", unparse(c.args[0]), sub))
+            if parts:
+                txt = txt.replace(unparse(c), "(" + " | ".join(parts) + ")")
+        return txt
+
     msg = None
     for h in [n for n in walk_no_nested(pa.node) if isinstance(n, ast.ExceptHandler) and "ScannerException" in unparse(h_type(n))]:
-        henv = {}
-        for s_ in h.body:
-            if isinstance(s_, ast.Assign) and isinstance(s_.targets[0], ast.Name):
-                henv[s_.targets[0].id] = s_.value
-        errs = [s_ for s_ in h.body if isinstance(s_, ast.Assign) and unparse(s_.targets[0]) == "error"]
-        if errs:
-            from ..match import inline as _inl
-            msg = unparse(_inl(errs[-1].value, {k: v for k, v in henv.items() if k != "error"}))
+        cands: list[ast.AST] = [s_.value for s_ in h.body if isinstance(s_, ast.Assign) and unparse(s_.targets[0]) == "error"]
+        for r_ in [x for b in h.body for x in ast.walk(b) if isinstance(x, ast.Return) and isinstance(x.value, ast.Call)]:
+            cands += [k.value for k in r_.value.keywords if k.arg == "error"]  # type: ignore[union-attr]
+        if cands:
+            msg = expand(pa.module, pa.node, cands[-1])
+    if msg is None:
+        raise AnalysisError("parse_as_ast: the message built for a ScannerException was not found")
     ev = h_name(pa.node)
-    ok = msg is not None and f"str({ev}.position)" in msg and f"{ev}.position.get_line()" in msg and f"{ev}.position.column" in msg
+    ok = all(any(alt in msg for alt in alts) for alts in ((f"str({ev}.position)", f"{{{ev}.position}}"), (f"{ev}.position.get_line()",), (f"{ev}.position.column",)))
     ctx.check(ok, "parse_as_ast:scanner-error-message", f"prints file:line:column, the line's text and a caret at the column; message expression: {msg}")
     pos = repo.func("a816.parse.tokens", "Position.__str__")
     ctx.check("self.file.filename" in unparse(pos.node) and "self.line" in unparse(pos.node) and "self.column" in unparse(pos.node), "Position.__str__", "file:line:column")
@@ -126,6 +154,40 @@ def h_name(fn: ast.FunctionDef) -> str:
     return "e"
 
 
+def _peeked_non_newline(fn: FunctionInfo, g: CFG, nid: int) -> bool:
+    """the character this next() takes was just seen by peek() to be one of a literal set that holds no newline"""
+    try:
+        conds = g.path_conditions(nid, fn.node)
+    except AnalysisError:
+        return False
+    for t, pol in conds:
+        if not pol:
+            continue
+        try:
+            tree = ast.parse(t, mode="eval").body
+        except SyntaxError:
+            continue
+        if not (isinstance(tree, ast.Compare) and len(tree.ops) == 1 and unparse(tree.left) == "s.peek()"):
+            continue
+        rhs = tree.comparators[0]
+        chars: list[str] | None = None
+        if isinstance(tree.ops[0], ast.Eq) and isinstance(rhs, ast.Constant) and isinstance(rhs.value, str):
+            chars = [rhs.value]
+        elif isinstance(tree.ops[0], ast.In):
+            val: ast.AST | None = rhs
+            if isinstance(rhs, ast.Name):
+                val = fn.module.assigns.get(rhs.id) if sum(1 for n_, _s in fn.module.assigns_all if n_ == rhs.id) == 1 else None
+            if isinstance(val, ast.Constant) and isinstance(val.value, str):
+                chars = list(val.value)
+            elif isinstance(val, (ast.Tuple, ast.List, ast.Set)) and all(isinstance(e, ast.Constant) and isinstance(e.value, str) for e in val.elts):
+                chars = [e.value for e in val.elts]  # type: ignore[attr-defined]
+            elif isinstance(val, ast.Dict) and all(isinstance(k, ast.Constant) and isinstance(k.value, str) for k in val.keys):
+                chars = [k.value for k in val.keys]  # type: ignore[union-attr]
+        if chars is not None and chars and all(len(c) == 1 and c not in "\n\0" for c in chars):
+            return True
+    return False
+
+
 def _consuming_newline_points(fn: FunctionInfo, g: CFG) -> tuple[list[int], list[tuple[int, int, str]], list[int]]:
     """nodes / edges where the current token may swallow a newline, and reset nodes (start moved to the cursor)."""
     unsafe_nodes: list[int] = []
@@ -140,7 +202,8 @@ def _consuming_newline_points(fn: FunctionInfo, g: CFG) -> tuple[list[int], list
             if cn in ("s.ignore", "s.ignore_run", "s.emit"):
                 resets.append(nid)
             elif cn == "s.next":
-                unsafe_nodes.append(nid)
+                if not _peeked_non_newline(fn, g, nid):
+                    unsafe_nodes.append(nid)
             elif cn in ("s.accept", "s.accept_run"):
                 lit = const_str(c.args[0]) if c.args else None
                 neg = any(k.arg == "negate" and getattr(k.value, "value", False) for k in c.keywords) or (len(c.args) > 1 and getattr(c.args[1], "value", False))
@@ -162,6 +225,12 @@ def r2_position_before_newline(ctx: Ctx) -> None:
         if not gps:
             continue
         g = CFG(fn.node)
+        known_state = set(mod.functions)
+        opaque = [call_name(c) for c in calls_in(fn.node) if any(unparse(a) == "s" for a in c.args) and not (call_name(c) or "").startswith("s.")
+                  and ((call_name(c) or "") not in known_state or not (call_name(c) or "").startswith(("lex_", "accept_opcode")))]
+        if opaque:
+            ctx.errors.append(f"{ctx.current_rule}: {fn.where}: the scanner is handed to `{opaque[0]}`, whose effect on the cursor has no summary; position reads in this function are not decided")
+            continue
         unsafe_nodes, unsafe_edges, resets = _consuming_newline_points(fn, g)
         # idiom: a raw next() right after `ignore_run(<set with newline>)` with no consumption in between cannot return a newline
         nl_resets = []
@@ -190,10 +259,10 @@ def r2_position_before_newline(ctx: Ctx) -> None:
             # consumed anything between the newline-skipping run and this next()?
             consumed_before = False
             for cnode in all_consuming_nodes - {n}:
-                if cnode in g.reachable([s for r in nl_resets for s, _ in g.succ[r]]) and n in g.reachable([m for m, _ in g.succ[cnode]], blocked=nl_resets):
+                if cnode in g.reachable([s for r in nl_resets for s, _ in g.succ[r]]) and n in g.reachable_with_flags([m for m, _ in g.succ[cnode]], blocked=nl_resets):
                     consumed_before = True
             for (a, b, lab) in all_consuming_edges:
-                if a in g.reachable([s for r in nl_resets for s, _ in g.succ[r]]) and n in g.reachable([b], blocked=nl_resets):
+                if a in g.reachable([s for r in nl_resets for s, _ in g.succ[r]]) and n in g.reachable_with_flags([b], blocked=nl_resets):
                     consumed_before = True
             if not consumed_before:
                 safe_next.add(n)
@@ -287,8 +356,14 @@ def r3_single_writer(ctx: Ctx) -> None:
                                   "the line bookkeeping in next(), so later errors are reported on the wrong line")
         for c in calls_in(fn.node):
             if (call_name(c) or "").endswith(".accept_prefix") and c.args:
-                lit = const_str(c.args[0])
-                ctx.check(lit is not None and "\n" not in lit, f"{fn.where}:{unparse(c)[:40]}", "accept_prefix skips its literal without line accounting: the literal must not contain a newline")
+                lits = [const_str(c.args[0])]
+                if isinstance(c.args[0], ast.Name):
+                    # loop variable over a literal tuple of strings
+                    for lp_ in [x for x in walk_no_nested(fn.node) if isinstance(x, ast.For) and unparse(x.target) == c.args[0].id and isinstance(x.iter, (ast.Tuple, ast.List))]:
+                        lits = [const_str(e) for e in lp_.iter.elts]
+                if any(l is None for l in lits):
+                    raise AnalysisError(f"{fn.where}: accept_prefix({unparse(c.args[0])[:30]}) with a non-literal prefix; not modelled")
+                ctx.check(all("\n" not in l for l in lits if l is not None), f"{fn.where}:{unparse(c)[:40]}", "accept_prefix skips its literal without line accounting: the literal must not contain a newline")
     ctx.floor("cursor_writes", 3)
     lo = ctx.repo.func(SST, "lex_opcode")
     restores = [n for n in walk_no_nested(lo.node) if isinstance(n, ast.Assign) and unparse(n.targets[0]) == "s.pos"]
